@@ -20,6 +20,7 @@ int main(int argc, char** argv) {
   NATIVE1("%f", double, 1.5, $F(1.5));          NATIVE1("% f", double, 1.5, $F(1.5));       NATIVE1("%.2e", double, 12345.678, $F(12345.678));
   NATIVE1("% .2e", double, 12345.678, $F(12345.678)); NATIVE1("%10.3f|", double, -2.25, $F(-2.25)); NATIVE1("%g", double, 0.0001, $F(0.0001));
   NATIVE1("%Lf", long double, 1.5, $F(1.5));    NATIVE1("%.3Le|", long double, -2.5, $F(-2.5));
+  NATIVE1("%.2f Litres", double, 2.5, $F(2.5)); NATIVE1("volume: %8.3f mL", double, 12.25, $F(12.25)); NATIVE1("Ll%ldhL", long, 5, $I(5));
   NATIVE1("%s", char*, "text", $S("text"));     NATIVE1("%8s|", char*, "ab", $S("ab"));     NATIVE1("%-8s|", char*, "ab", $S("ab"));
   NATIVE1("%.2s", char*, "abcdef", $S("abcdef")); NATIVE1("%c", int, 'q', $I('q'));
   { var s = new(String, $S("")); int n = print_to(s, 0, "100%% of %li", $I(3)); same(s, n, "100% of 3", "%% consumes no argument"); }
